@@ -370,7 +370,7 @@ class FullOps(TorchCalls):
                 ft = tv_of(args[1] if len(args) > 1 else kwargs.get("fill_value"))
                 return TV(kind=kind, axes=a0.axes, deg=ft.deg if ft else None, dtype=dtype, origin=org, poly=ft.poly if ft else None)
             return TV(kind=kind, axes=a0.axes, deg=LIKE[fn], dtype=dtype, origin=org, span=LIKE[fn] == Z and "C" in a0.axes,
-                      poly={"zeros_like": Poly.const(0), "ones_like": Poly.const(1)}.get(fn))
+                      poly={"zeros_like": Poly.const(0), "ones_like": Poly.const(1)}.get(fn), note="uninitialised" if fn == "empty_like" else "")
         if fn == "randperm":
             n = tv_of(args[0])
             tag = n.size_of if n is not None else None
@@ -403,7 +403,7 @@ class FullOps(TorchCalls):
             return TV(kind="pyfloat", note="finfo:" + tag, dtype="Py")
         if fn in ("is_tensor", "is_floating_point"):
             return TV(kind="pybool", dtype="Bool")
-        if a0 is None and fn not in ("cat", "concatenate", "stack", "vstack", "hstack", "vmap", "grad", "backward", "apply_along_axis", "block_diag", "multi_dot"):
+        if a0 is None and fn not in ("cat", "concatenate", "stack", "vstack", "hstack", "vmap", "grad", "backward", "apply_along_axis", "block_diag", "multi_dot", "ndindex"):
             return self.unk(f"{lib}{fn} on non-numeric argument", node)
 
         if fn in ("isfinite", "isnan", "isinf"):
@@ -673,6 +673,17 @@ class FullOps(TorchCalls):
             return self.pack(fn, args, kwargs, node, kind)
         if fn == "apply_along_axis":
             return self.apply_along_axis(args, kwargs, node, env)
+        if fn == "ndindex" and not kwargs:
+            # the index tuples of an array of the given shape, in row-major order
+            sizes = list(args[0].items) if len(args) == 1 and isinstance(args[0], ListV) and args[0].items is not None else list(args)
+            if not sizes:
+                return ListV(items=(ListV(items=(), kind="tuple"),))
+            ts = [tv_of(x) for x in sizes if not isinstance(x, tuple)]
+            if len(ts) == len(sizes) == 1 and ts[0] is not None and ts[0].size_of is not None:
+                tag = ts[0].size_of
+                idx = TV(kind="pyint", idx_of=tag, note="range-index", p=True, origin=frozenset(["loop-index"]))
+                return ListV(items=None, elem=ListV(items=(idx,), kind="tuple"), kind="list", over=tag if tag == "R" else None, order=(("range", repr(ts[0].poly)), "same"))
+            return self.unk("ndindex over these extents", node)
         if fn == "vmap":
             self.ev("vmap", node)
             return VmapV(args[0])
